@@ -165,6 +165,15 @@ def c05_controls(ck, recs, cfg):
     control(ck, recs, cfg, m_drop, "one HTLC resolution missing on the counterparty's commitment")
     control(ck, recs, cfg, m_lock, "timeout spend lock time = expiry - 1")
 
+    def m_fault(bad):
+        i = _pick(bad, lambda r: r["a"] == "CloseFault" and r["faults"])
+        if i is not None:
+            f = bad[i]["faults"][-1]
+            f["err"], f["nout"], f["nin"], f["commit"] = 0, 0, 0, 1
+        return i
+
+    control(ck, recs, cfg, m_fault, "signer fault swallowed: force close succeeds with an empty summary")
+
 
 def evidence(ck, recs, g, obs, rule_extra):
     hashes = set()
@@ -218,7 +227,7 @@ def run(ck, extra_overlay=None):
         raise Inconclusive("executor failed:\n" + res["out"][-3000:])
     recs = core.read_ndjson(trace)
     cfg = "ChannelCloseTrace_C05.cfg"
-    obs = ("CloseCheck",)
+    obs = ("CloseCheck", "CloseFault")
     ok = judge(ck, prop, recs, cfg, obs, "C05")
     ndiv = res["out"].count("VERIF-DIVERGED ")
     if ndiv and ok and not ck.violations and not ck.known_hits:
@@ -244,9 +253,13 @@ def run(ck, extra_overlay=None):
             c = chain[0] if r["x"] < 2 else (chain[1] if len(chain) > 1 else None)
             if c is not None and len(c["outs"]) + len(c["ins"]) > len(r["res"]):
                 trimmed += 1
-        elif r["a"] not in ("CloseCheck", "Reset"):
+        elif r["a"] not in ("CloseCheck", "CloseFault", "Reset"):
             last = r
     ck.cov["close_checks"]["commitments_with_trimmed_htlcs"] = trimmed
+    cf = [r for r in recs if r["a"] == "CloseFault"]
+    ck.cov["close_checks"]["signer_fault_force_closes"] = dict(
+        states=len(cf), faulted_calls=sum(len(r["faults"]) for r in cf),
+        reported_as_error=sum(1 for r in cf for f in r["faults"] if f["err"] == 1))
     big = [r for r in cc if len(r["res"]) >= 2]
     if big:
         r = big[len(big) // 2]
